@@ -72,11 +72,14 @@ func (b *BFS) WorkerMain(arg string) {
 	parts := strings.SplitN(arg, ":", 4)
 	front, resPrefix := parts[2], parts[3]
 	idx, n, _, _ := b.R.Worker()
-	data, err := os.ReadFile(front)
+	ff, err := os.Open(front)
 	if err != nil {
 		b.R.Fault("bfs worker: %v", err)
 	}
-	lines := strings.Split(strings.TrimRight(string(data), "\n"), "\n")
+	defer ff.Close()
+	// the frontier is streamed: every worker holds one line at a time, not the whole level
+	sc := bufio.NewScanner(ff)
+	sc.Buffer(make([]byte, 1<<16), 1<<22)
 	out, err := os.Create(fmt.Sprintf("%s.%d", resPrefix, idx))
 	if err != nil {
 		b.R.Fault("bfs worker: %v", err)
@@ -87,10 +90,11 @@ func (b *BFS) WorkerMain(arg string) {
 		deadline = time.Now().Add(b.Budget)
 	}
 	skipped := 0
-	for li, line := range lines {
+	for li := 0; sc.Scan(); li++ {
 		if li%n != idx {
 			continue
 		}
+		line := sc.Text()
 		if !deadline.IsZero() && time.Now().After(deadline) {
 			skipped++
 			continue
@@ -200,6 +204,11 @@ func (b *BFS) Search() {
 			break
 		}
 		b.DepthDone = depth
+		if len(frontier) > 6_000_000 && depth < b.MaxDepth {
+			// the sandbox has no memory limit: stop before the next level's frontier exhausts it
+			b.R.CapHit("%s: frontier of %d states after depth %d: deeper levels not explored (memory)", b.Name, len(frontier), depth)
+			break
+		}
 		if len(frontier) == 0 {
 			b.Exhausted = true
 			break
